@@ -437,10 +437,11 @@ type merged struct {
 	infra      []string
 	fp         map[string]string
 	doubleRuns int
+	tags       map[string]bool
 }
 
 func newMerged() *merged {
-	return &merged{faults: map[string]int64{}, probes: map[string]int64{}, nt: map[string]bool{}, viol: map[string]*engine.ViolationReport{}, fp: map[string]string{}}
+	return &merged{faults: map[string]int64{}, probes: map[string]int64{}, nt: map[string]bool{}, viol: map[string]*engine.ViolationReport{}, fp: map[string]string{}, tags: map[string]bool{}}
 }
 
 func (m *merged) add(res *engine.WorkerResult) {
@@ -483,6 +484,9 @@ func (m *merged) add(res *engine.WorkerResult) {
 		m.fp[k] = v
 	}
 	m.doubleRuns += res.DoubleRuns
+	for _, t := range res.Tags {
+		m.tags[t] = true
+	}
 }
 
 // fanout runs [0,total) split over workers and merges.
@@ -617,6 +621,9 @@ func check(id, tier, repo string, writeEvidence bool) int {
 		for k, v := range raceM.probes {
 			m.probes["race_build:"+k] += v
 		}
+		for t := range raceM.tags {
+			m.tags[t] = true
+		}
 		m.probes["race_build_runs"] += int64(raceM.runs)
 	}
 
@@ -696,6 +703,19 @@ func check(id, tier, repo string, writeEvidence bool) int {
 		exit = 1
 	}
 	return exit
+}
+
+// tagCounts turns the set of "kind:detail" tags into distinct counts per kind.
+func tagCounts(tags map[string]bool) map[string]int {
+	out := map[string]int{}
+	for t := range tags {
+		k := t
+		if i := strings.Index(t, ":"); i > 0 {
+			k = t[:i]
+		}
+		out[k]++
+	}
+	return out
 }
 
 func onlyNondeterminism(infra []string) bool {
@@ -872,6 +892,7 @@ func (r *runner) writeEvidence(m *merged, total int, wall float64, newViol, know
 			"cross_process_fingerprints_compared": detChecked,
 			"note": "every mismatch is reported as infrastructure trouble (exit 2), never as a violation",
 		},
+		"distinct_situations_reached": tagCounts(m.tags),
 		"components": r.cfg.Components,
 		"toolchain":  goBin + " (GOTOOLCHAIN=local), GOMAXPROCS of workers = 1 (+ one sample at another setting)",
 		"runs_requested": total,
